@@ -28,6 +28,11 @@ def run_chains(ctx):
     os.remove(r["out"])
     if stats["cases"] != r["distinct"]:
         raise core.Inconclusive("worker saw %d cases, TLC printed %d" % (stats["cases"], r["distinct"]))
+    # the repository's own tests as a trace source (hook H2): every Passes.Process chain they run
+    fx = fixtures(ctx)
+    stats["fixture_chains"] = fx["chains"]
+    with open(trace, "a") as tf:
+        tf.write(open(fx["file"]).read())
     # validate in chunks (one JVM each) so that memory stays bounded
     fails = []
     tlc = [r]
@@ -62,6 +67,23 @@ def run_chains(ctx):
                     recs.append({"lang": rj["lang"], "shape": rj["shape"], "leaf": rj["leaf"], "pos": rj["pos"], "err": rj["err"],
                                  "post_objects": [o["name"] for s in rj["post"] for o in s["objects"]]})
     return {"fails": fails, "stats": stats, "tlc": tlc, "records": nrec, "samples": recs, "consts": consts, "trace": trace}
+
+
+def fixtures(ctx):
+    """Run the repository's jenny tests with -tags verif and COG_VERIF_TRACE: chains recorded by hook H2."""
+    import subprocess
+    d = ctx.sub("h2")
+    env = ctx.goenv()
+    env["COG_VERIF_TRACE"] = d
+    p = subprocess.run(["go", "test", "-tags", "verif", "-count=1", "./internal/jennies/...", "./internal/ast/..."], cwd=core.REPO, env=env,
+                       capture_output=True, text=True)
+    if p.returncode != 0:
+        # the repository's tests failing is not this check's verdict; the traces of what did run are still used
+        ctx.notes.append("repository tests (with -tags verif) did not all pass while recording fixture traces")
+    out = os.path.join(ctx.scratch, "fixtures.ndjson")
+    st = json.loads(ctx.run_worker(["h2-convert", "-dir", d, "-out", out]))
+    n = sum(v for k, v in st.items() if k.startswith("chains/") and k != "chains/other")
+    return {"file": out, "chains": n, "stats": st}
 
 
 def _ints(path, tag):
@@ -121,4 +143,7 @@ def witness_class(rec, clause):
 
 
 def case_key(rec):
+    if rec.get("source") == "repository-tests":
+        import hashlib
+        return "%s|fixture|%s" % (rec["lang"], hashlib.sha1(json.dumps(rec["pre"], sort_keys=True).encode()).hexdigest()[:12])
     return "%s|%s|%s|%s" % (rec["lang"], rec["pos"], ">".join(rec["shape"]), rec["leaf"])
